@@ -82,18 +82,24 @@ type op struct {
 }
 
 type caseSpec struct {
-	Fragment int    `json:"fragment"`
-	Disk     bool   `json:"disk"`
-	Stream   bool   `json:"through_media_stream,omitempty"`
-	Rtp      bool   `json:"published_as_rtp,omitempty"`  // Stream only: every frame is an RTP packet through Stream.WriteRtpPacket (the real depacketizer keeps the metadata)
-	NoSprop  bool   `json:"sdp_without_sprop,omitempty"` // the SDP / the metadata the pipeline is built with carry no SPS/PPS: they arrive in band
-	Path     string `json:"path"`
-	SPS      string `json:"sps_hex"`
-	PPS      string `json:"pps_hex"`
-	ASC      string `json:"asc_hex"`
-	Rate     int    `json:"audio_rate"`
-	FlushAt  int    `json:"flush_at"` // index of the first op of the closing key-frame train, -1 = none
-	Ops      []op   `json:"ops"`
+	Fragment int  `json:"fragment"`
+	Disk     bool `json:"disk"`
+	Stream   bool `json:"through_media_stream,omitempty"`
+	Rtp      bool `json:"published_as_rtp,omitempty"`  // Stream only: every frame is an RTP packet through Stream.WriteRtpPacket (the real depacketizer keeps the metadata)
+	NoSprop  bool `json:"sdp_without_sprop,omitempty"` // the SDP / the metadata the pipeline is built with carry no SPS/PPS: they arrive in band
+	// Disk mode, the history of the HLS directory before this stream starts:
+	// "killed": an earlier life of the same path died without clean-up and left
+	// its (longer) segment files under the names this life will use;
+	// "republished": the same path was published and closed before, in the same
+	// directory. Sequence numbers restart at 1 either way.
+	Earlier string `json:"earlier_life,omitempty"`
+	Path    string `json:"path"`
+	SPS     string `json:"sps_hex"`
+	PPS     string `json:"pps_hex"`
+	ASC     string `json:"asc_hex"`
+	Rate    int    `json:"audio_rate"`
+	FlushAt int    `json:"flush_at"` // index of the first op of the closing key-frame train, -1 = none
+	Ops     []op   `json:"ops"`
 }
 
 func mustHex(s string) []byte {
@@ -405,6 +411,8 @@ type result struct {
 	playlists       int
 	classes         []string
 	knownSkips      int
+	staleFiles      int // files an earlier life left behind when this one started
+	segs            map[int][]byte
 	stalePairs      int // segments whose key picture carries a pair the stream had carried earlier, not the last one (observed only)
 	infra           string
 }
@@ -475,6 +483,11 @@ func run(c *caseSpec, work string) (res *result, f *failure) {
 		defer os.RemoveAll(d)
 	}
 	defer e.cleanup()
+	if c.Disk && c.Earlier != "" && !c.Stream {
+		if f := e.earlierLife(); f != nil {
+			return res, f
+		}
+	}
 	if c.Stream {
 		if f := e.openStream(); f != nil {
 			return res, f
@@ -507,6 +520,7 @@ func run(c *caseSpec, work string) (res *result, f *failure) {
 			f = e.fetch(e.lastSeq - o.Back)
 		case "read":
 			f = e.read(o.Rd, o.N)
+		case "nop":
 		case "sync":
 			f = e.sync(o.Back)
 		case "close":
@@ -538,7 +552,116 @@ func run(c *caseSpec, work string) (res *result, f *failure) {
 		return res, f
 	}
 	res.segments = e.lastSeq
+	res.segs = e.segs
+	if c.Disk && c.Earlier != "" && !c.Stream {
+		return res, e.compareWithMemoryTwin(work)
+	}
 	return res, nil
+}
+
+// earlierLife gives the HLS directory a history: the same path is published
+// by a first generator (large frames: its segment files are longer than most
+// of what follows) and ended. "republished": ended by Close. "killed": its
+// files are what a process that dies leaves behind - they are read before the
+// Close and put back afterwards under the names <prefix>_1.ts ... _N.ts the
+// new life is going to use (the prefix is learnt from the files, not computed).
+func (e *engine) earlierLife() *failure {
+	pl := hls.NewPlaylist()
+	sg, err := hls.NewSegmentGenerator(pl, e.c.Path, e.c.Fragment, e.dir, e.c.Rate, xlog.L())
+	if err != nil {
+		return fail("open", "earlier life: NewSegmentGenerator: %v", err)
+	}
+	vp := mpegts.NewH264Packetizer(&codec.VideoMeta{Codec: "H264", Sps: mustHex(e.c.SPS), Pps: mustHex(e.c.PPS)}, sg)
+	F := int64(max(e.c.Fragment, 1)) * 90000
+	idx := 900000
+	for g := int64(0); g < 3; g++ {
+		for k := int64(0); k < 4; k++ {
+			hdr := byte(0x41)
+			if k == 0 {
+				hdr = 0x65
+			}
+			t := g*(F+18000) + k*(F+9000)/3
+			idx++
+			if err := vp.Packetize(&codec.Frame{MediaType: codec.MediaTypeVideo, Payload: payload(idx, false, hdr, 2400), Pts: ns(t), Dts: ns(t)}); err != nil {
+				return fail("write-error", "earlier life: %v", err)
+			}
+		}
+	}
+	names, _ := filepath.Glob(filepath.Join(e.dir, "*.ts"))
+	var stale []byte
+	prefix := ""
+	for _, n := range names {
+		b, _ := os.ReadFile(n)
+		if len(b) > len(stale) {
+			stale = b
+		}
+		base := filepath.Base(n)
+		if k := strings.LastIndexByte(base, '_'); k > 0 {
+			prefix = base[:k]
+		}
+	}
+	sg.Close()
+	pl.Close()
+	if left, _ := filepath.Glob(filepath.Join(e.dir, "*.ts")); len(left) > 0 {
+		return fail("storage-bound", "%d .ts files are left after the earlier stream on this path was closed: %v", len(left), baseNames(left))
+	}
+	if e.c.Earlier != "killed" {
+		e.res.class("disk:path-published-before(closed)")
+		return nil
+	}
+	if prefix == "" || len(stale) < 188*20 {
+		e.res.infra = fmt.Sprintf("earlier life left nothing usable (%d files, %d bytes)", len(names), len(stale))
+		return nil
+	}
+	n := 3
+	for _, o := range e.c.Ops {
+		if o.K == "v" && o.Hdr&0x1f == 5 {
+			n++
+		}
+	}
+	n = min(n, 40)
+	for k := 1; k <= n; k++ {
+		if err := os.WriteFile(filepath.Join(e.dir, fmt.Sprintf("%s_%d.ts", prefix, k)), stale, 0o644); err != nil {
+			e.res.infra = err.Error()
+			return nil
+		}
+	}
+	e.res.staleFiles = n
+	e.res.class("disk:stale-files-of-a-killed-earlier-life")
+	return nil
+}
+
+// compareWithMemoryTwin: what this life's muxer produced for each sequence
+// number is what the same frames produce in memory mode, where no directory
+// and no history exist.
+func (e *engine) compareWithMemoryTwin(work string) *failure {
+	twin := *e.c
+	twin.Disk, twin.Earlier, twin.Ops = false, "", nil
+	for i, o := range e.c.Ops {
+		if o.K == "v" || o.K == "a" {
+			twin.Ops = append(twin.Ops, o)
+		} else {
+			twin.Ops = append(twin.Ops, op{K: "nop"}) // keeps the op indexes, which seed the payloads
+		}
+		if i == e.c.FlushAt {
+			twin.FlushAt = len(twin.Ops) - 1
+		}
+	}
+	res, f := run(&twin, work)
+	if f != nil {
+		f.Msg = "memory twin: " + f.Msg
+		return f
+	}
+	if len(res.segs) != len(e.segs) {
+		return fail("segment-bytes", "disk mode completed %d segments, the same frames in memory mode %d", len(e.segs), len(res.segs))
+	}
+	for seq := 1; seq <= len(e.segs); seq++ {
+		if !bytes.Equal(e.segs[seq], res.segs[seq]) {
+			return fail("segment-bytes", "segment %d served from the directory (%d bytes) differs from the transport stream the same frames produce in memory mode (%d bytes), first difference at %d", seq, len(e.segs[seq]), len(res.segs[seq]), firstDiff(e.segs[seq], res.segs[seq]))
+		}
+	}
+	e.res.class("disk:segments-equal-memory-twin")
+	return nil
 }
 
 func (e *engine) cleanup() {
@@ -685,11 +808,29 @@ func (e *engine) checkFiles() *failure {
 	if e.dir == "" {
 		return nil
 	}
-	names, _ := filepath.Glob(filepath.Join(e.dir, "*.ts"))
+	names := e.myFiles()
 	if len(names) > 3+1 {
 		return fail("storage-bound", "%d .ts files on disk for one stream after %d completed segments (window 3 + the open one): %v", len(names), e.lastSeq, baseNames(names))
 	}
 	return nil
+}
+
+// myFiles lists the stream's .ts files. Files an earlier life left under
+// numbers this life has not reached yet are not this stream's storage.
+func (e *engine) myFiles() []string {
+	names, _ := filepath.Glob(filepath.Join(e.dir, "*.ts"))
+	if e.res.staleFiles == 0 {
+		return names
+	}
+	mine := names[:0]
+	for _, n := range names {
+		base := strings.TrimSuffix(filepath.Base(n), ".ts")
+		k, _ := strconv.Atoi(base[strings.LastIndexByte(base, '_')+1:])
+		if k <= e.lastSeq+1 {
+			mine = append(mine, n)
+		}
+	}
+	return mine
 }
 
 func baseNames(p []string) []string {
@@ -1213,7 +1354,7 @@ func (e *engine) close() *failure {
 		e.hpl.Close()
 	}
 	if e.dir != "" {
-		names, _ := filepath.Glob(filepath.Join(e.dir, "*.ts"))
+		names := e.myFiles()
 		if len(names) > 3+1 {
 			return fail("storage-bound", "%d .ts files left after close", len(names))
 		}
